@@ -1604,6 +1604,7 @@ def main():
         else:
             for o in (0, 1, 2):
                 jobs.append(Job("B", "%s opt=%d" % (key, o), src, o, [["1"] * NARGS], end="|ende"))
+            for o in (0, 2):
                 jobs.append(Job("B", "%s opt=%d" % (key, o), src, o, [["1"] * NARGS], asan=True, end="|ende"))
     # ---- 3. model-shared Text subset
     featM = {}
@@ -1620,7 +1621,7 @@ def main():
         for o in ((0, 2) if quick else (0, 1, 2)):
             jobs.append(Job("M", "stream=M", src, o, [[t] for t in tapes], sx=sx(o)))
         n_el = src.count(") an der Stelle")      # elements of temporaries: the sanitizer sample prefers these programs
-        if not quick and (i % 3 == 0 or (n_el and asan_M < 160)) or quick and (i % 9 == 0 or (n_el and asan_M < 8)):
+        if not quick and (i % 3 == 0 or (n_el and asan_M < 140)) or quick and (i % 9 == 0 or (n_el and asan_M < 8)):
             asan_M += 1
             jobs.append(Job("M", "stream=M", src, rng.choice((0, 2)), [[t] for t in tapes[:2] + ["1" * 40]], sx=None, asan=True))
     for risky in ("loop-condition-temporaries", "for-bound-temporaries", "for-header-temporaries", "foreach-header-temporaries"):
@@ -1640,7 +1641,7 @@ def main():
         opts = (i % 3,) if (quick or i >= 150) else (0, 1, 2)
         for o in opts:
             jobs.append(Job("A", "stream=A", src, o, argvs))
-        if (quick and (i % 10 == 0 or (g.derived_in_scope and asan_A < 10))) or (not quick and (i % 5 == 0 or (g.derived_in_scope and asan_A < 260))):
+        if (quick and (i % 10 == 0 or (g.derived_in_scope and asan_A < 10))) or (not quick and (i % 5 == 0 or (g.derived_in_scope and asan_A < 220))):
             asan_A += 1
             jobs.append(Job("A", "stream=A", src, rng.choice((0, 2)), argvs if g.derived_in_scope else argvs[:2], asan=True))
     log("[c05] %d compile jobs (%d corpus, %d+%d probes, %d M programs, %d A programs)" % (len(jobs), corpus_n, len(P), len(DP), nM, nA))
@@ -1777,8 +1778,10 @@ def main():
         "C05_element_of_temporary_in_falls (FULL, concrete): the skeleton form EElem (BIN_INDEX: element of a temporary list is deep-copied into its own "
         "temporary before the list's scope ends) compiles to accepted code inside `falls` arms and loop conditions, while the emission that hands a plain "
         "reference into the temporary list out of the arm (copy after the arm released the list) is rejected. "
-        "NOT modelled: reads that copy nothing (Länge, gleich on a derived reference) emit no action, so a read-only use after release is outside "
-        "the discipline and is tied to the compiler through ASan only (construct=derived-from-temporary probes, sanitizer sample of streams A and M). "
+        "Reads in place (Länge, gleich, the source of a slice) are actions too (IUse) and need a live owner, so a comparison of a derived reference "
+        "after its owner's release is rejected as well; NOT modelled as reads: the iteration of for-each over its source and reads inside runtime "
+        "functions beyond their documented transfer — those are tied to the compiler through ASan only (construct=derived-from-temporary probes, "
+        "sanitizer sample of streams A and M, which prefers programs with elements/fields of temporaries). "
         "C05_compile_ok + C05_program_balanced: FULL for the decidable fragment fprogram of Lower/CompileOk.v (expressions literal/variable/element/"
         "unused temporaries/slice/element of a temporary or a variable/Text concatenation/und-oder; statements declaration, assignment to variables and elements, expression statement, "
         "block, Wenn, Solange and Mache-Solange with break/continue from inner scopes): compile emits accepted code, every normally terminating run "
